@@ -29,6 +29,14 @@ Oracle per transition (reference model = {property: expected reading}):
 Observations used for verdicts: public getters/setters and exceptions, `part.blob` parsed with bare lxml,
 the saved bytes re-opened through the public API.
 
+Signatures: `C09|<rule>|<Class>.<property>|<value class>[|in-sequence]`, rule in {readback, readback-reopen, none,
+reject, reject-mutated, interferes(<other reading>), raised}. <Class> is the declaring class (runtime class for
+the BaseShape and _BasePlot properties, whose element classes differ per kind); <value class> is the alphabet
+label, coarsened to 'out-of-domain' / 'out-of-domain(xml-only)' for reject-mutated (one finding per setter;
+xml-only = part XML changed but no catalogued reading did) and to 'value' / 'None' for interferes.
+`|in-sequence` marks a failure at step >= 2 of a history whose single-assignment history passes. The witness
+kept per signature is the smallest history (independent of VERIF_SEED).
+
 Deviations from DESIGN.md: the save/re-open is done per case (not batched per sweep: assignments to one
 object conflict); the "attribute/element is gone" check compares [v, None] with [None] after pruning empty
 attribute-less elements instead of demanding a byte-identical restoration of the initial XML (the docs
@@ -143,7 +151,9 @@ def _match1(got, exp, prop):
         q = prop.quantum["float"] if isinstance(prop.quantum, dict) else prop.quantum
         d = abs(got - exp)
         if prop.circular:
-            d = d % prop.circular
+            # the documented reading is normalised to [0, full turn): only the wrap at 0 is circular
+            if not (0 <= got < prop.circular) or not (0 <= exp <= prop.circular):
+                return False
             d = min(d, prop.circular - d)
         return d <= q * (1 + 1e-9) + 1e-12 * max(1.0, abs(exp)) * (1 if q else 0)
     if isinstance(got, bool) or isinstance(exp, bool):
@@ -283,13 +293,15 @@ def run_seq(case, out):
                 got2 = _read(cat.resolve(prs, path), P)
                 out.outcomes.append((op, "none" if V.cls == "none" else "accepted"))
                 rule = "none" if V.cls == "none" else "readback"
+                model[(kn, pn)] = (expected, label, cname)
                 if not _match(got, expected, P):
                     out.v(rule, cname, pn, label, i, "%s: assigned %r, expected to read %r, read %r"
                           % (where, V.spec, expected, got))
+                    model.pop((kn, pn))          # reported once; not again after the re-open
                 elif not _match(got2, expected, P):
                     out.v(rule, cname, pn, label, i, "%s: assigned %r, a freshly located proxy reads %r, expected %r"
                           % (where, V.spec, got2, expected))
-                model[(kn, pn)] = (expected, label, cname)
+                    model.pop((kn, pn))
                 for s in _allowed(K, P):
                     model.pop((kn, s), None)
 
@@ -313,6 +325,7 @@ def run_seq(case, out):
                         other = sname if k2 == kn else "%s.%s" % (k2, sname)
                         out.v("interferes(%s)" % other, cname, pn, label, i,
                               "%s: the reading of %s changed from %r to %r" % (where, other, old, val))
+                        model.pop((k2, sname), None)  # reported once; not again after the re-open
         readings = new
 
     if not model:
